@@ -5,6 +5,12 @@ The real `Copier.copy` runs on the real `LocalAsyncFS` / `RouterAsyncFS` in a pe
 thread pool; the multi-part machinery is forced small (`copy_part_size` 1..64 bytes, `Copier.BUFFER_SIZE` 1..40 bytes).
 The oracle is a reference model of the destination rules (below, `model`), validated in a self-test shard against the
 repository's own 324-row table test/hailtop/inter_cloud/copy_test_specs.py.
+
+Six of the generated shards hand the copier a fault-injecting view of that file system (`FaultyFS`): single calls -- a listing
+step, status()/size() of a listed entry, open / a read chunk, create / a write chunk / the closing flush, makedirs, the parts of a
+multi-part create -- fail once or twice with an error `hailtop.utils.is_transient_error` accepts, as the generated case says.  The
+copier retries those internally, so the fault-free reference model stays the oracle: a copy that reports success must have produced
+exactly the predicted destination.  The retry back-off (`delay_ms_for_try`) is zero while a case runs.
 """
 from __future__ import annotations
 
@@ -22,10 +28,28 @@ RULE = ('random source tree S (1-8 files, depth 1-3, empty files and empty dirs)
         '1..64 and Copier.BUFFER_SIZE in 1..40; 1-3 transfers, each a single source or a list of 1-3 sources (file / dir / missing, '
         'optional trailing slash), destination in {D, existing dir, existing file, fresh path, path below a file} with optional '
         'trailing slash, treat_dest_as in the three modes, Transfer / [Transfer] call forms, plain and file:// URLs, semaphore 1-8, '
-        'thread pool 1-4, return_exceptions on/off; plus every row of the repo copy_test_specs table. Oracle: reference model of '
+        'thread pool 1-4, return_exceptions on/off; plus every row of the repo copy_test_specs table. FAULT PLANS (6 of 13 generated '
+        'shards): 0-3 faults [kind, path, index, times in {1,2}, error] drawn from the injection points the reference model says this '
+        'very case visits (so a planned fault is reached by construction; half of the draws come from the listing phase when the case '
+        'has one): the listfiles(dir) call (first call, or the re-listing after a listing fault -- then that fault is planned too), the '
+        'k-th __anext__ of a listing (k = 0..number of entries; listings are async generators: one that raised is finished), status() '
+        'and size() of a listed file, open(src), the k-th read chunk (the empty one at EOF included), create(dest), the k-th write '
+        'chunk, the closing flush, makedirs, multi_part_create, and per part i: create_part, a write, the closing flush, the ranged '
+        'open_from / readexactly at each offset; error in {asyncio.TimeoutError, OSError ETIMEDOUT / ECONNRESET / EPIPE, aiohttp '
+        'ServerTimeoutError / ServerDisconnectedError / ClientResponseError 503 and 429, hailtop.httpx.ClientResponseError 503}; '
+        'retry delays are zero. Oracle: reference model of '
         'the destination rules predicts the exact final destination tree (path -> bytes, untouched files keep old bytes) or the set '
-        'of documented exception classes; sources must be unchanged. Non-trivial: a successful copy that wrote a file of >= 2 parts '
-        'whose last part is short, or merged a source directory into an existing non-empty destination directory.')
+        'of documented exception classes; sources must be unchanged; under a fault plan the SAME fault-free prediction holds (nothing '
+        'missing, nothing extra, contents equal, or the documented error), and an injected error must not reach the caller of '
+        'Copier.copy except from the three calls the copier makes outside any retry (first listfiles of a source, makedirs / '
+        'multi_part_create of the multi-part path: accepted as a loud failure, counted as accepted_loud_failure_at_unretried_*). '
+        'Classes: fault_in_listing_call / fault_in_listing_iteration / fault_in_status / fault_in_size / fault_in_open / fault_in_read / '
+        'fault_in_create / fault_in_write / fault_in_close / fault_in_makedirs / fault_in_multi_part_create / fault_in_create_part / '
+        'fault_in_part_write / fault_in_part_close / fault_in_part_open / fault_in_part_read (a fault of that kind FIRED), fault_error_<name>, '
+        'fault_same_point_twice, faults_fired_ge2, faults_absorbed_success, faults_planned_none_reached, transient_error_propagated. '
+        'Non-trivial: a successful copy that wrote a file of >= 2 parts '
+        'whose last part is short, or merged a source directory into an existing non-empty destination directory, or absorbed >= 1 '
+        'injected fault.')
 ASSUMPTIONS = [
     'local file system only: a path cannot be both file and directory, so FileAndDirectoryError is exercised only through the spec table',
     'two sources that write the same destination path, or transfers whose outcome depends on the order in which another transfer '
@@ -34,9 +58,21 @@ ASSUMPTIONS = [
     'a source or destination path that runs *through* a regular file may be reported as NotADirectoryError instead of FileNotFoundError',
     'after a raised error the contents of the paths the failed call was writing are unspecified (only untouched paths are compared)',
     'empty directories are not copied (repo test: "We ignore empty directories when copying")',
+    'fault plans: a fault replaces the call (nothing of it happened), except the closing flush of a written stream / part, which '
+    'fails after the bytes reached the file; a listing that raised is finished (async generator semantics of every AsyncFS.listfiles); '
+    'status() / size() of a listed entry can fail until they first succeed (LocalFileListEntry caches; cloud entries carry both in the '
+    'listing); statfile() / staturl() / isfile() / isdir() and MultiPartCreate.__aexit__ are not fault points',
+    'three calls of the copier sit outside every retry_transient_errors on the unchanged tree -- the first listfiles() of a source in '
+    'SourceCopier.copy_as_dir, and makedirs() / multi_part_create() in _copy_file_multi_part_main -- so a transient error there is '
+    'raised to the caller of Copier.copy as it is: judged a loud, honest failure (untouched files must still be unchanged), not a '
+    'violation; reported to the maintainers of the harness as an observation',
+    'return_exceptions=True records whatever reaches SourceCopier.copy / _copy_part instead of raising it, and _copy_part re-raises '
+    'only asyncio.TimeoutError for its retry loop: in that mode fault plans leave out the three un-retried calls and use only '
+    'TimeoutError-class errors for part-level points (no production caller passes return_exceptions=True)',
+    'retry back-off is set to zero (hailtop.utils.utils.delay_ms_for_try) while a case runs; the back-off itself belongs to C21',
 ]
 TRUSTED = ['reference model of the destination rules in checks/c22.py (validated against the 324-row copy_test_specs table)',
-           'host file system and os.walk for reading back results']
+           'host file system and os.walk for reading back results', 'FaultyFS delegation wrapper in checks/c22.py']
 
 DEST_DIR, DEST_IS_TARGET, INFER_DEST = 'dest_dir', 'dest_is_target', 'infer_dest'
 MODES = [DEST_DIR, DEST_IS_TARGET, INFER_DEST]
@@ -138,7 +174,7 @@ def model_unit(tree, src, dest, mode, is_list):
     """One (source, transfer) pair against the initial tree.
     -> dict(errs=set of class names (unit level), ferrs=set (per-file level), writes={path: bytes}, stat=path or None,
             kind='file'|'dir'|'missing', merge=bool)"""
-    u = dict(errs=set(), ferrs=set(), writes={}, stat=None, kind='missing', merge=False, target=None)
+    u = dict(errs=set(), ferrs=set(), writes={}, srcof={}, stat=None, kind='missing', merge=False, target=None, src=norm(src))
     s = norm(src)
     through_file = any(a in tree.files for a in ancestors(s))
     as_file = (not src.endswith('/')) and s in tree.files
@@ -179,20 +215,21 @@ def model_unit(tree, src, dest, mode, is_list):
         u['kind'] = 'file' if as_file else 'dir'
         return u
 
-    def w(path, b):
+    def w(path, b, srcpath):
         if any(a in tree.files for a in ancestors(path)):
             u['ferrs'].add(NOTDIR)
         elif path in tree.dirs:
             u['ferrs'].add(ISDIR)
         else:
             u['writes'][path] = b
+            u['srcof'][path] = srcpath
 
     if as_file:
         u['kind'] = 'file'
         if ttype == 'dir':
             u['errs'].add(ISDIR)
         else:
-            w(target, tree.files[s])
+            w(target, tree.files[s], s)
     else:
         u['kind'] = 'dir'
         if ttype == 'file':
@@ -201,7 +238,7 @@ def model_unit(tree, src, dest, mode, is_list):
             pre = s + '/'
             for f in sorted(tree.files):
                 if f.startswith(pre):
-                    w(target + '/' + f[len(pre):], tree.files[f])
+                    w(target + '/' + f[len(pre):], tree.files[f], f)
             if target in tree.dirs and any(f.startswith(target + '/') for f in tree.files) and u['writes']:
                 u['merge'] = True
     return u
@@ -251,6 +288,340 @@ def model(case, tree):
             final.update(u['writes'])
     out['final'] = final
     return out
+
+
+# ----------------------------------------------------------------------------------------------------------------------
+# transient fault injection (a wrapper around the real file system the copier is handed)
+#
+# A fault plan is a list of [kind, path, index, times, error]: the first `times` (1 or 2) visits of the injection point
+# (kind, path, index) raise `error`, an exception hailtop.utils.is_transient_error accepts.  `path` is relative to the case
+# directory ('S/sub', 'D/x/a').  Injection points:
+#   listfiles     the listfiles(dir) call itself; index = how many calls for that directory the same task (= the same source of a
+#                 transfer) made before (0 = the first one)
+#   list_next     the index-th __anext__ of a listing of dir (index = number of entries already delivered; the last one is the
+#                 __anext__ that ends the listing).  Listings are async generators in every AsyncFS: one that raised is finished.
+#   status/size   entry.status() / (await entry.status()).size() of the listed file `path` (until the first success, which the
+#                 entry caches as LocalFileListEntry does; cloud entries carry both in the listing)
+#   open/read     open(src) (index = calls before) / the index-th read() of one stream of src (the read that returns b'' included)
+#   create/write/close   create(dest) (index = calls before) / the index-th write() of one stream / closing it after a clean body
+#   makedirs      makedirs(dir) (index = calls before)
+#   mpc           the multi_part_create(dest) call (index = calls before)
+#   create_part/part_write/part_close   part number `index` of dest: create_part / any write / closing it
+#   open_from/readexactly   the ranged read of src starting at byte offset `index`: opening it / reading it
+FAULT_KINDS = ('listfiles', 'list_next', 'status', 'size', 'open', 'read', 'create', 'write', 'close', 'makedirs', 'mpc',
+               'create_part', 'part_write', 'part_close', 'open_from', 'readexactly')
+_COUNTED = ('listfiles', 'open', 'create', 'makedirs', 'mpc')        # index = number of earlier calls for the same path
+FAULT_CLASS = {'listfiles': 'fault_in_listing_call', 'list_next': 'fault_in_listing_iteration', 'status': 'fault_in_status',
+               'size': 'fault_in_size', 'open': 'fault_in_open', 'read': 'fault_in_read', 'create': 'fault_in_create',
+               'write': 'fault_in_write', 'close': 'fault_in_close', 'makedirs': 'fault_in_makedirs',
+               'mpc': 'fault_in_multi_part_create', 'create_part': 'fault_in_create_part', 'part_write': 'fault_in_part_write',
+               'part_close': 'fault_in_part_close', 'open_from': 'fault_in_part_open', 'readexactly': 'fault_in_part_read'}
+TIMEOUT_ERRORS = ('timeout', 'os_etimedout')          # instances of asyncio.TimeoutError (= builtin TimeoutError)
+PART_KINDS = ('create_part', 'part_write', 'part_close', 'open_from', 'readexactly')
+
+
+def unretried_point(kind, index):
+    """Calls the copier makes OUTSIDE any retry_transient_errors (read off the unchanged code after the first run of the fault plans
+    flagged them; reported, see ASSUMPTIONS): the first listfiles() of a source in SourceCopier.copy_as_dir, and makedirs() /
+    multi_part_create() in _copy_file_multi_part_main.  A transient error there reaches the caller of Copier.copy unchanged -- a loud
+    failure, accepted (and counted); it must still not corrupt anything."""
+    return kind in ('makedirs', 'mpc') or (kind == 'listfiles' and index == 0)
+
+
+FAULT_ERRORS = ('timeout', 'os_etimedout', 'os_econnreset', 'os_epipe', 'aiohttp_server_timeout', 'aiohttp_disconnected',
+                'aiohttp_503', 'httpx_503', 'aiohttp_429')
+
+
+def make_fault_error(name):
+    import asyncio
+    import errno
+    if name == 'timeout':
+        e = asyncio.TimeoutError()
+    elif name == 'os_etimedout':
+        e = OSError(errno.ETIMEDOUT, 'injected: operation timed out')
+    elif name == 'os_econnreset':
+        e = OSError(errno.ECONNRESET, 'injected: connection reset by peer')
+    elif name == 'os_epipe':
+        e = OSError(errno.EPIPE, 'injected: broken pipe')
+    else:
+        import aiohttp
+        if name == 'aiohttp_server_timeout':
+            e = aiohttp.ServerTimeoutError('injected')
+        elif name == 'aiohttp_disconnected':
+            e = aiohttp.ServerDisconnectedError('injected')
+        else:
+            from types import SimpleNamespace
+            ri = SimpleNamespace(real_url='http://injected/', url='http://injected/', method='GET', headers={})
+            status = int(name.rsplit('_', 1)[1])
+            if name.startswith('httpx_'):
+                import hailtop.httpx as hx
+                e = hx.ClientResponseError(ri, (), body='injected', status=status, message='injected')
+            else:
+                e = aiohttp.ClientResponseError(ri, (), status=status, message='injected')
+    e._verif_injected = name
+    return e
+
+
+def injected_name(exc):
+    """-> the catalogue name if `exc` (or what it was raised from) is one of the injected transient errors, else None."""
+    seen = 0
+    while exc is not None and seen < 8:
+        n = getattr(exc, '_verif_injected', None)
+        if n:
+            return n
+        exc = exc.__cause__ or exc.__context__
+        seen += 1
+    return None
+
+
+class Faults:
+    def __init__(self, specs, prefixes):
+        self.specs = [dict(kind=k, path=norm(pth), index=int(i), left=int(t), err=e) for k, pth, i, t, e in specs]
+        self.prefixes = prefixes            # strings a url may start with in front of the case-relative path
+        self.fired = []                     # [kind, path, index, error]
+        self.calls = {}
+        self.active = bool(self.specs)
+
+    def rel(self, url):
+        for pre in self.prefixes:
+            if url.startswith(pre):
+                return norm(url[len(pre):])
+        return norm(url)
+
+    def count(self, kind, rel):
+        n = self.calls.get((kind, rel), 0)
+        self.calls[(kind, rel)] = n + 1
+        return n
+
+    def hit(self, kind, rel, index=0):
+        if not self.active:
+            return
+        for sp in self.specs:
+            if sp['left'] > 0 and sp['kind'] == kind and sp['path'] == rel and \
+                    (index >= sp['index'] if kind in _COUNTED else index == sp['index']):
+                sp['left'] -= 1
+                self.fired.append([kind, rel, index, sp['err']])
+                e = make_fault_error(sp['err'])
+                e._verif_injected = (sp['err'], len(self.fired) - 1)
+                raise e
+
+
+class _FStatus:
+    def __init__(self, inner, F, rel):
+        self._inner, self._F, self._rel, self._size = inner, F, rel, None
+
+    def __getattr__(self, k):
+        return getattr(self._inner, k)
+
+    async def size(self):
+        if self._size is None:
+            self._F.hit('size', self._rel)
+            self._size = await self._inner.size()
+        return self._size
+
+    async def __getitem__(self, key):
+        return await self._inner[key]
+
+
+class _FEntry:
+    def __init__(self, inner, F):
+        self._inner, self._F, self._st = inner, F, None
+
+    def __getattr__(self, k):
+        return getattr(self._inner, k)
+
+    async def status(self):
+        if self._st is None:
+            rel = self._F.rel(await self._inner.url_maybe_trailing_slash())
+            self._F.hit('status', rel)
+            self._st = _FStatus(await self._inner.status(), self._F, rel)
+        return self._st
+
+
+class _FReadable:
+    def __init__(self, inner, F, rel, start=None):
+        self._inner, self._F, self._rel, self._start, self._k = inner, F, rel, start, 0
+
+    def __getattr__(self, k):
+        return getattr(self._inner, k)
+
+    async def __aenter__(self):
+        await self._inner.__aenter__()
+        return self
+
+    async def __aexit__(self, *a):
+        return await self._inner.__aexit__(*a)
+
+    async def read(self, n=-1):
+        k, self._k = self._k, self._k + 1
+        self._F.hit('read', self._rel, k)
+        return await self._inner.read(n)
+
+    async def readexactly(self, n):
+        self._F.hit('readexactly', self._rel, self._start if self._start is not None else 0)
+        return await self._inner.readexactly(n)
+
+
+class _FWritable:
+    def __init__(self, cm, F, rel, wkind, ckind, part=None):
+        self._cm, self._F, self._rel, self._wkind, self._ckind, self._part, self._k, self._w = cm, F, rel, wkind, ckind, part, 0, None
+
+    async def __aenter__(self):
+        self._w = await self._cm.__aenter__()
+        return self
+
+    async def __aexit__(self, et, ev, tb):
+        r = await self._cm.__aexit__(et, ev, tb)
+        if et is None:
+            self._F.hit(self._ckind, self._rel, self._part if self._part is not None else 0)     # the final flush reports a failure
+        return r
+
+    def __getattr__(self, k):
+        return getattr(self._w if self._w is not None else self._cm, k)
+
+    async def write(self, b):
+        k, self._k = self._k, self._k + 1
+        self._F.hit(self._wkind, self._rel, self._part if self._part is not None else k)
+        return await self._w.write(b)
+
+
+class _FMultiPart:
+    def __init__(self, inner, F, rel):
+        self._inner, self._F, self._rel = inner, F, rel
+
+    async def __aenter__(self):
+        await self._inner.__aenter__()
+        return self
+
+    async def __aexit__(self, *a):
+        return await self._inner.__aexit__(*a)
+
+    async def create_part(self, number, start, size_hint=None):
+        self._F.hit('create_part', self._rel, number)
+        cm = await self._inner.create_part(number, start, size_hint=size_hint)
+        return _FWritable(cm, self._F, self._rel, 'part_write', 'part_close', part=number)
+
+
+class FaultyFS:
+    """The copier's view of the file system: every call goes to the real LocalAsyncFS / RouterAsyncFS, after the fault plan had its
+    say.  Only what Copier / SourceCopier call is intercepted; the rest is delegated untouched."""
+
+    def __init__(self, inner, F):
+        self._inner, self._F = inner, F
+
+    def __getattr__(self, k):
+        return getattr(self._inner, k)
+
+    async def listfiles(self, url, recursive=False, exclude_trailing_slash_files=True):
+        import asyncio
+        F = self._F
+        rel = F.rel(url)
+        # calls are numbered per listing task (one SourceCopier.copy_as_dir each): two sources naming the same directory both make
+        # a "first" call
+        F.hit('listfiles', rel, F.count('listfiles', (rel, id(asyncio.current_task()))))
+        it = await self._inner.listfiles(url, recursive=recursive, exclude_trailing_slash_files=exclude_trailing_slash_files)
+
+        async def listing():
+            step = 0
+            try:
+                F.hit('list_next', rel, step)
+                async for e in it:
+                    yield _FEntry(e, F)
+                    step += 1
+                    F.hit('list_next', rel, step)
+            finally:
+                aclose = getattr(it, 'aclose', None)
+                if aclose is not None:
+                    await aclose()
+        return listing()
+
+    async def open(self, url):
+        F = self._F
+        rel = F.rel(url)
+        F.hit('open', rel, F.count('open', rel))
+        return _FReadable(await self._inner.open(url), F, rel)
+
+    async def open_from(self, url, start, *, length=None):
+        F = self._F
+        rel = F.rel(url)
+        F.hit('open_from', rel, start)
+        return _FReadable(await self._inner.open_from(url, start, length=length), F, rel, start=start)
+
+    async def create(self, url, *, retry_writes=True):
+        F = self._F
+        rel = F.rel(url)
+        F.hit('create', rel, F.count('create', rel))
+        return _FWritable(await self._inner.create(url, retry_writes=retry_writes), F, rel, 'write', 'close')
+
+    async def makedirs(self, url, exist_ok=False):
+        F = self._F
+        rel = F.rel(url)
+        F.hit('makedirs', rel, F.count('makedirs', rel))
+        return await self._inner.makedirs(url, exist_ok=exist_ok)
+
+    async def multi_part_create(self, sema, url, num_parts):
+        F = self._F
+        rel = F.rel(url)
+        F.hit('mpc', rel, F.count('mpc', rel))
+        return _FMultiPart(await self._inner.multi_part_create(sema, url, num_parts), F, rel)
+
+
+def fault_points(case, tree, m):
+    """Injection points the fault-free run of this case visits, derived from the reference model (the generator draws from this
+    list, so that a planned fault is reached by construction).  -> list of [kind, path, index]"""
+    pts = []
+    seen = set()
+
+    def add(kind, path, index=0):
+        key = (kind, path, index)
+        if key not in seen:
+            seen.add(key)
+            pts.append([kind, path, index])
+    p, buf = case['p'], case['buf']
+    if m.get('ctor_error'):
+        return pts
+    for u in m['units']:
+        s = u['src']
+        if u['kind'] == 'dir':
+            n = sum(1 for f in tree.files if f.startswith(s + '/'))
+            add('listfiles', s, 0)
+            add('listfiles', s, 1)
+            for j in range(n + 1):
+                add('list_next', s, j)
+            if not u['errs']:
+                for f in sorted(tree.files):
+                    if f.startswith(s + '/'):
+                        add('status', f)
+                        add('size', f)
+        elif u['kind'] == 'file':
+            add('listfiles', s, 0)
+        if u['errs']:
+            continue
+        for dest, b in sorted(u['writes'].items()):
+            src = u['srcof'][dest]
+            parent = dest.rsplit('/', 1)[0]
+            if parent not in tree.dirs:
+                add('makedirs', parent, 0)
+            if len(b) <= p:
+                add('open', src, 0)
+                for k in range(-(-len(b) // buf) + 1):
+                    add('read', src, k)
+                add('create', dest, 0)
+                for k in range(-(-len(b) // buf)):
+                    add('write', dest, k)
+                add('close', dest, 0)
+            else:
+                add('mpc', dest, 0)
+                nparts = -(-len(b) // p)
+                for i in range(nparts):
+                    add('create_part', dest, i)
+                    add('part_write', dest, i)
+                    add('part_close', dest, i)
+                    this = min(p, len(b) - i * p)
+                    for off in range(i * p, i * p + this, buf):
+                        add('open_from', src, off)
+                        add('readexactly', src, off)
+    return pts
 
 
 # ----------------------------------------------------------------------------------------------------------------------
@@ -313,9 +684,15 @@ def run_real(case, tree):
     from hailtop.aiotools.local_fs import LocalAsyncFS
     from hailtop.aiotools.router_fs import RouterAsyncFS
 
+    import logging
+    import hailtop.utils.utils as UU
     base = tempfile.mkdtemp(prefix=f'verif-c22-{os.getpid()}-', dir=SCRATCH)
-    out = dict(exc=None, exc_repr=None, ctor=False, report=None, files=None, timeout=False)
+    out = dict(exc=None, exc_repr=None, ctor=False, report=None, files=None, timeout=False, fired=[], injected=None)
     saved_buf = Copier.BUFFER_SIZE
+    saved_delay = UU.delay_ms_for_try
+    UU.delay_ms_for_try = lambda *a, **k: 0          # retries cost no wall time (the back-off itself is C21's subject)
+    logging.getLogger('hailtop.utils').setLevel(logging.CRITICAL)      # "A transient error occured ..." warnings of the retry loop
+    F = Faults(case.get('faults') or [], [case.get('scheme', '') + base + '/', base + '/'])
     saved_cps = LocalAsyncFS.__dict__.get('copy_part_size')
     tp = _POOLS.get(case['workers'])      # pools are reused across cases of one shard process (thread start/exit is slow)
     if tp is None:
@@ -346,6 +723,8 @@ def run_real(case, tree):
                 fs = RouterAsyncFS(local_kwargs={'thread_pool': tp})
             else:
                 fs = LocalAsyncFS(thread_pool=tp)
+            if F.active:
+                fs = FaultyFS(fs, F)
             try:
                 sema = asyncio.Semaphore(case['sema'])
                 arg = transfers[0] if case['form'] == 'single' else transfers
@@ -354,22 +733,34 @@ def run_real(case, tree):
             finally:
                 await fs.close()
 
+        async def captured():
+            # the copy's own exception is captured INSIDE wait_for: an (injected) asyncio.TimeoutError raised by Copier.copy must not
+            # be mistaken for the harness deadline
+            try:
+                return None, await go()
+            except Exception as e:      # noqa: BLE001 - the class is what the oracle compares
+                return e, None
+
         async def guarded():
-            return await asyncio.wait_for(go(), CASE_TIMEOUT)
+            return await asyncio.wait_for(captured(), CASE_TIMEOUT)
 
         if transfers is not None:
             try:
-                report = asyncio.run(guarded())
-                if case.get('rex'):
+                e, report = asyncio.run(guarded())
+                if e is not None:
+                    out['exc'] = type(e).__name__
+                    out['exc_repr'] = repr(e)
+                    out['injected'] = injected_name(e)
+                elif case.get('rex'):
                     out['report'] = _recorded(report)
             except asyncio.TimeoutError:
                 out['timeout'] = True
-            except Exception as e:      # noqa: BLE001 - the class is what the oracle compares
-                out['exc'] = type(e).__name__
-                out['exc_repr'] = repr(e)
+        F.active = False
+        out['fired'] = F.fired
         out['files'] = _read_back(base)
     finally:
         Copier.BUFFER_SIZE = saved_buf
+        UU.delay_ms_for_try = saved_delay
         if saved_cps is None:
             try:
                 del LocalAsyncFS.copy_part_size
@@ -452,6 +843,23 @@ def check_case(case, _retry=True):
         classes.add('predicted_' + e)
     if m['ctor_error']:
         classes.add('predicted_ctor_error')
+    planned = case.get('faults') or []
+    fired = real['fired']
+    if planned:
+        classes.add('faults_planned')
+        if not fired:
+            classes.add('faults_planned_none_reached')
+    for kind, _pth, _idx, err in fired:
+        classes.add(FAULT_CLASS[kind])
+        classes.add('fault_error_' + err)
+    if len(fired) >= 2:
+        classes.add('faults_fired_ge2')
+    per_point = {}
+    for kind, pth, idx, _err in fired:
+        key = (kind, pth, None if kind in _COUNTED else idx)
+        per_point[key] = per_point.get(key, 0) + 1
+    if any(v >= 2 for v in per_point.values()):
+        classes.add('fault_same_point_twice')
 
     if real['timeout']:
         if _retry:
@@ -476,7 +884,22 @@ def check_case(case, _retry=True):
     rex = bool(case.get('rex'))
     success = False
 
-    if m['ctor_error']:
+    if real['exc'] is not None and real.get('injected'):
+        # an injected transient error reached the caller of Copier.copy
+        kind, _pth, idx, _err = fired[real['injected'][1]]
+        classes.add('transient_error_propagated')
+        if unretried_point(kind, idx) and not rex:
+            classes.add('accepted_loud_failure_at_unretried_' + kind)
+        else:
+            fails.append((f'transient-fault-not-retried-{kind}', 'a transient error of the file system is retried, the copy completes or '
+                          'raises the documented error',
+                          f'injected {fired}; Copier.copy raised {real["exc_repr"]} (model predicts '
+                          f'{sorted(m["errs"]) if m["errs"] else "success"})'))
+        inferred = {u['stat'] for u in m['units'] if u['stat'] is not None} if m['racy'] else set()
+        d = _diff(init_D, got_D, skip=touched | {x for x in got_D if any(x.startswith(t + '/') for t in touched | inferred)})
+        if d:
+            fails.append(('untouched-file-changed', 'files that no transfer targets keep their old contents', '; '.join(d[:5])))
+    elif m['ctor_error']:
         if not real['ctor'] or real['exc'] != m['ctor_error']:
             fails.append(('multi-source-onto-target-not-rejected', 'several sources onto an exact target raise NotADirectoryError',
                           f'expected {m["ctor_error"]} from Transfer(); got {real["exc_repr"]}'))
@@ -486,7 +909,9 @@ def check_case(case, _retry=True):
     elif m['racy']:
         if real['exc'] is not None and real['exc'] not in DOCUMENTED | {'FileExistsError'}:
             fails.append((f'undocumented-exception-{real["exc"]}', 'only documented errors are raised', real['exc_repr']))
-        d = _diff(init_D, got_D, skip=touched | {x for x in got_D if any(x.startswith(t + '/') for t in touched)})
+        # a unit whose destination type is inferred may, in the other order, have copied INTO that destination (dest/basename(src)/...)
+        inferred = {u['stat'] for u in m['units'] if u['stat'] is not None}
+        d = _diff(init_D, got_D, skip=touched | {x for x in got_D if any(x.startswith(t + '/') for t in touched | inferred)})
         if d:
             fails.append(('untouched-file-changed', 'files that no transfer targets keep their old contents', '; '.join(d[:5])))
     elif m['errs'] and not rex:
@@ -544,6 +969,9 @@ def check_case(case, _retry=True):
     nontrivial = False
     if success and not fails:
         classes.add('success')
+        if fired:
+            classes.add('faults_absorbed_success')
+            nontrivial = True
         for u in m['units']:
             if u['merge']:
                 nontrivial = True
@@ -615,7 +1043,7 @@ NAMES = ['a', 'b', 'c', 'sub', 'x', 'k']
 SPECIAL = ['a#1', 'q?v=1', 'semi;x', 'pct%41', 'sp ace', 'plus+', 'amp&b']
 
 
-def strategies(special=False):
+def strategies(special=False, faults=False):
     from hypothesis import strategies as st
     names = st.sampled_from(NAMES + (SPECIAL * 2 if special else []))
 
@@ -696,6 +1124,29 @@ def strategies(special=False):
         case['form'] = form
         case['rex'] = draw(st.sampled_from([False] * (3 if form == 'single' else 11) + [True]))
         case['xfers'] = xfers
+        # transient faults of the file system: 0-3 injection points drawn from the points the reference model says this very case
+        # visits (listing phase and byte-copying phase), each failing once or twice with an error is_transient_error accepts
+        if faults:
+            pts = fault_points(case, tree, model(case, tree))
+            if case['rex']:
+                # return_exceptions mode RECORDS whatever reaches SourceCopier.copy instead of raising it: the un-retried calls are
+                # left out there, and part-level faults are timeouts (see ASSUMPTIONS: _copy_part records every other error)
+                pts = [q for q in pts if not unretried_point(q[0], q[2])]
+            listing = [q for q in pts if q[0] in ('list_next', 'status', 'size') or (q[0] == 'listfiles' and q[2] >= 1)]
+            nf = draw(st.sampled_from([0, 1, 1, 1, 2, 2, 3])) if pts else 0
+            plan_ = []
+            for _ in range(nf):
+                pool = listing if (listing and draw(st.booleans())) else pts
+                # first the kind (so that the many part-level points do not crowd out open / read / create / write / close), then a
+                # point of that kind
+                k0 = draw(st.sampled_from(sorted({q[0] for q in pool})))
+                kind, pth, idx = draw(st.sampled_from([q for q in pool if q[0] == k0]))
+                errs = TIMEOUT_ERRORS if (case['rex'] and kind in PART_KINDS) else FAULT_ERRORS
+                if kind == 'listfiles' and idx >= 1:
+                    # the copier lists a source a second time only after a fault in the listing phase: plan that one, too
+                    plan_.append(['list_next', pth, draw(st.integers(0, 1)), 1, draw(st.sampled_from(errs))])
+                plan_.append([kind, pth, idx, draw(st.sampled_from([1, 1, 2])), draw(st.sampled_from(errs))])
+            case['faults'] = plan_
         return case
 
     return cases()
@@ -706,7 +1157,8 @@ def strategies(special=False):
 def plan(tier):
     n = 250 if tier == 'quick' else 6000
     specs = [dict(kind='table', variant=0), dict(kind='table', variant=1)]
-    specs += [dict(kind='hyp', n=n) for _ in range(13)]
+    specs += [dict(kind='hyp', n=n) for _ in range(7)]
+    specs += [dict(kind='hyp', n=n, faults=True) for _ in range(6)]
     specs.append(dict(kind='special', n=25 if tier == 'quick' else 300))
     return specs
 
@@ -755,8 +1207,8 @@ def run_shard(spec, seed, tier):
                 res.case(case, nt, cls)
                 _record(res, fl, case)
     from vlib.hyp import search
-    search(res, PROPERTY, strategies(special=spec['kind'] == 'special'), _check_special if spec['kind'] == 'special' else check_case,
-           spec['n'], seed)
+    search(res, PROPERTY, strategies(special=spec['kind'] == 'special', faults=bool(spec.get('faults'))),
+           _check_special if spec['kind'] == 'special' else check_case, spec['n'], seed)
     return res
 
 
